@@ -134,6 +134,8 @@ impl Expr {
                 }
                 Some(expr) => {
                     resolved.set(resolved.get() + 1);
+                    #[cfg(feature = "verif-hooks")]
+                    crate::verif_hooks::point("expr.resolve");
                     expr.run_nested(constants, depth + 1, resolved)
                 }
                 None => Err(ExprRunError::MissingIdentifier(ident.clone())),
